@@ -249,8 +249,15 @@ Fixpoint flow_dask_from (T : tables) (req : request) (n : nat) (run : nat) (fs :
       | r => r
       end
   end.
-Definition flow_dask (T : tables) (req : request) (nruns : nat) (fs : files) :=
-  flow_dask_from T req nruns 0 fs [].
+(* run_pipelines_with_dask first runs the first parameter set with un-suffixed names inside a
+   TemporaryDirectory (to learn the output shapes): an exception there aborts the observation before
+   anything is written into the output directory *)
+Definition flow_dask (T : tables) (req : request) (nruns : nat) (fs : files)
+  : files * list entry * option err :=
+  match save_new T (items req) None 0 [] [] with
+  | (_, _, Some e) => (fs, [], Some e)
+  | (_, _, None) => flow_dask_from T req nruns 0 fs []
+  end.
 
 (* Outputs.save_to_file(processor, run_number=run): only the FIRST item of each dict is used;
    all_filenames[bucket] is REPLACED when a later dict names the same bucket. *)
